@@ -37,6 +37,14 @@ def gen_params(rng, kind, small=False, big=False):
     p = _gen_params(rng, kind, small, big)
     if rng.chance(0.2):
         p["types"] = "numpy"
+    u = rng.sub("units")
+    if kind in ("VK", "KOL") and u.chance(0.15):
+        # the model is scale free: the same screen in other length units (sub-millimetre pixels of a bench set-up, or
+        # kilometres) - pixel scale, r0 and L0 multiplied by one factor
+        f = u.choice([1e-4, 1e-3, 1e-2, 10.0, 1e3])
+        for k in ("px", "r0", "L0"):
+            p[k] = float("%.6g" % (p[k] * f))
+        p["units"] = f
     return p
 
 
